@@ -297,7 +297,12 @@ fn prepare_response(
     match head.status {
         http::StatusCode::NO_CONTENT
         | http::StatusCode::CONTINUE
-        | http::StatusCode::PROCESSING => *size = BodySize::None,
+        | http::StatusCode::PROCESSING => {
+            // these never have a body; a content-length set by the handler must not be relayed
+            // either (RFC 7230 §3.3.2), whatever kind of body the response was built with
+            *size = BodySize::None;
+            skip_len = true;
+        }
         http::StatusCode::SWITCHING_PROTOCOLS => {
             skip_len = true;
             *size = BodySize::Stream;
